@@ -291,7 +291,7 @@ def gen_csd(rng, shape=None, contig=None, fail=None):
 
 
 def cases(rng, tier, seed):
-    k = {'quick': 1, 'thorough': 12}[tier]
+    k = {'quick': 3, 'thorough': 30}[tier]
     out = []
     for _ in range(3 * k):
         for op in list(c01.OPS_AR) + list(c01.OPS_CMP):
@@ -638,6 +638,75 @@ def copies(tier, seed):
     return fails
 
 
+def unmodelled_operands(tier, seed):
+    """operand kinds the Lean model does not cover (int32 / float64 arrays, float lists, numpy
+    scalars): snapshots around every operator, element assignment and += / -= """
+    fails, n = [], 0
+    t = ts()
+    rs = np_rng(PID, seed, 'operands')
+    reps = 2 if tier == 'quick' else 12
+    mk = {
+        'int32': lambda m: rs.randint(-50, 50, size=m).astype(np.int32),
+        'float64': lambda m: np.round(rs.uniform(-50, 50, size=m), 3),
+        'floatlist': lambda m: [float(v) for v in np.round(rs.uniform(-50, 50, size=m), 2)],
+        'int64-0d': lambda m: np.array(int(rs.randint(-50, 50))),
+        'float64-noncontig': lambda m: np.round(rs.uniform(-50, 50, size=2 * m), 3)[::2],
+    }
+    ops = dict(c01.OPS_AR)
+    ops.update(c01.OPS_CMP)
+    for _ in range(reps):
+        for unit in ('ps', 'us', 's', 'h'):
+            for kind, f in mk.items():
+                m = int(rs.randint(1, 5))
+                for opn, fn in ops.items():
+                    v = f(m)
+                    b = snap(v)
+                    try:
+                        fn(t.TimeArray(np.arange(m), time_unit=unit), v)
+                    except Exception:  # noqa
+                        pass
+                    n += 1
+                    dd = differs(b, snap(v))
+                    if dd:
+                        fails.append(Failure('binop/%s/%s/operand-%s' % (opn, kind, dd), 'TimeArray %s modified its %s operand (%s)' % (opn, kind, dd), {'what': 'operands'}))
+                v = f(m)
+                b = snap(v)
+                try:
+                    ta = t.TimeArray(np.arange(m + 1), time_unit=unit)
+                    ta[0:m] = v
+                except Exception:  # noqa
+                    pass
+                n += 1
+                dd = differs(b, snap(v))
+                if dd:
+                    fails.append(Failure('setitem/%s/operand-%s' % (kind, dd), 'TimeArray.__setitem__ modified its %s operand (%s)' % (kind, dd), {'what': 'operands'}))
+                for sgn in ('iadd', 'isub'):
+                    for shape in ('uniform', 'nonuniform'):
+                        if kind == 'int64-0d':
+                            v = f(1)
+                        else:
+                            base = np.arange(4) * (2 if kind != 'floatlist' else 2.0)
+                            if shape == 'nonuniform':
+                                base = base + np.array([0, 0, 1, 0])
+                            v = base.astype(np.int32) if kind == 'int32' else (list(map(float, base)) if kind == 'floatlist' else
+                                                                              (np.repeat(base.astype(float), 2)[::2] if kind == 'float64-noncontig' else base.astype(float)))
+                        b = snap(v)
+                        u = t.UniformTime(t0=0, sampling_interval=10, length=4, time_unit=unit)
+                        ub = snap(u)
+                        try:
+                            u = getattr(operator, sgn)(u, v)
+                            raised = False
+                        except Exception:  # noqa
+                            raised = True
+                        n += 1
+                        dd = differs(b, snap(v))
+                        if dd:
+                            fails.append(Failure('uniform-%s/%s/%s/operand-%s' % (sgn, shape, kind, dd), 'UniformTime %s modified its %s operand (%s)' % (sgn, kind, dd), {'what': 'operands'}))
+                        if raised and snap(u) != ub:
+                            fails.append(Failure('uniform-%s/%s/%s/changed-on-reject' % (sgn, shape, kind), 'a refused UniformTime %s (%s %s operand) changed the axis' % (sgn, shape, kind), {'what': 'operands'}))
+    return fails, n
+
+
 def oracle(rng, tier, seed, focus, cases=None):
     fails = []
     for c in (cases or []):
@@ -647,6 +716,9 @@ def oracle(rng, tier, seed, focus, cases=None):
     f2, stats = sweep(tier, seed)
     fails += f2
     fails += copies(tier, seed)
+    f3, n3 = unmodelled_operands(tier, seed)
+    fails += f3
+    stats['unmodelled_operand_calls'] = n3
     for f in fails:
         f.replay = dict(f.replay, key=f.key)
     stats.update(judged=len(cases or []), failed=len(fails), distinct_keys=len({f.key for f in fails}))
@@ -660,6 +732,8 @@ def replay(d):
         fs, _ = sweep('thorough', 0)
     elif d.get('what') == 'copies':
         fs = copies('quick', 0)
+    elif d.get('what') == 'operands':
+        fs = unmodelled_operands('thorough', 0)[0]
     else:
         f = rejudge(d)
         fs = [f] if f else []
